@@ -262,8 +262,12 @@ Proof.
   destruct (pair_rx _ _ _ _ _ I Hx) as [y [Hy [Hinx [Hiny HR]]]].
   assert (Hnotin : ~ In r' (map s_id (sp_rx sp))).
   { rewrite <- (ids_eq _ _ _ _ _ _ _ (i_rx _ _ _ I)). apply find_rx_None. exact Hf'. }
+  assert (Hnone : find_srx r' (sp_rx sp) = None).
+  { destruct (find_srx r' (sp_rx sp)) as [z|] eqn:Ez; [|reflexivity]. exfalso. apply Hnotin.
+    unfold find_srx in Ez. apply find_some in Ez. destruct Ez as [A B]. apply N.eqb_eq in B. rewrite <- B.
+    apply in_map. exact A. }
   destruct (disp_alive s) eqn:Eda.
-  - injection Hs as <- <- <-. rewrite Hy in Hsp. injection Hsp as <- <-. split; [|apply vs_ok_nil].
+  - injection Hs as <- <- <-. rewrite Hy, Hnone in Hsp. injection Hsp as <- <-. split; [|apply vs_ok_nil].
     destruct (rr_subs _ _ _ _ _ _ _ HR Hlive eq_refl) as [Hsubs Hcap].
     set (bd := fix05 c && fix04 c && Z.eqb (scount s) 0).
     set (xn := new_rx r' (r_async x) false (m_cap (r_mb x)) bd).
@@ -289,7 +293,7 @@ Proof.
     + cbn [app] in I3. rewrite sp_set_rx_twice in I3. rewrite <- Hsubs. exact I3.
     + reflexivity.
     + cbn [app]. apply (rr_nd _ _ _ _ _ _ _ HR).
-  - injection Hs as <- <- <-. rewrite Hy in Hsp. injection Hsp as <- <-. split; [|apply vs_ok_nil].
+  - injection Hs as <- <- <-. rewrite Hy, Hnone in Hsp. injection Hsp as <- <-. split; [|apply vs_ok_nil].
     apply (inv_add_rx c s sp (new_rx r' (r_async x) true 0 (fix05 c))); [exact I | exact Hf' |].
     rewrite Eda. constructor; cbn; auto; try (intros; discriminate); try (intros; contradiction).
     + constructor.
